@@ -528,7 +528,8 @@ def B.publish (b : B) (r : PubReq) : B :=
           let dupl := r.qos == 2 && s.unack.contains r.pid
           let s := if r.qos == 2 && !dupl then { s with unack := s.unack ++ [r.pid] } else s
           let b := b.setSess s
-          let b := if r.retain then
+          -- the retained store is updated next to `deliverMessage` (not for a duplicate QoS 2 PUBLISH)
+          let b := if r.retain && !dupl then
               (if r.plen == 0 then { b with retained := b.retained.filter (·.1 != r.topic) }
                else { b with retained := (r.topic, m) :: b.retained.filter (·.1 != r.topic) })
             else b
